@@ -136,10 +136,13 @@ device_cb(void *arg)
 			d->user = NULL;
 			nni_mtx_unlock(&device_mtx);
 			device_close(d);
+			// Queue the reap before completing the user's aio:
+			// once that completes the application may call
+			// nng_fini(), whose drain must see the pending reap.
+			nni_reap(&device_reap, d);
 			if (user != NULL) {
 				nni_aio_finish_error(user, err);
 			}
-			nni_reap(&device_reap, d);
 			return;
 		}
 		nni_mtx_unlock(&device_mtx);
